@@ -56,15 +56,15 @@ CLAIMED.update({
  "C18": (MC, "TLC: Trace_Chunk (reference receiver, ALL drop subsets) over every packet both real sessions returned, in returned order, with the serializer-tap intent per packet; uptime scheduled across 2^24 and 2^32 ms through the clock hook; message-level WIRE checks in Trace_Server/Trace_Client",
          "The bytes a session hands out are parsed by the TLA+ receiver written from the protocol document; each packet must decode, under every subset of dropped droppable packets, to exactly the message the session asked its serializer to encode for that packet, which pinpoints order and loss defects; chunk-size changes are learnt from the wire only.",
          "serializer tap and clock hooks; TLC; harness logger", "5 C18"),
- "C05": (MC, "TLC: MC_Handshake (two peers, all fragmentations/interleavings, safety + liveness under weak fairness, P=3) + Trace_Handshake replays every process call of real exchanges through HsStep with P=1536 (handed-back bytes compared by value)",
+ "C05": (MC, "TLC: MC_Handshake (two peers, all fragmentations/interleavings, safety + liveness under weak fairness, P=3) ; MC_HandshakeLegacy (library stage machine x digest-less peer from the protocol description in ten styles, content-level echo / order / exactly-once, liveness, negative control) + Trace_Handshake replays every process call of real exchanges through HsStep with P=1536 (handed-back bytes compared by value)",
          "Design level: no early completion, exactly 1+2P bytes emitted, byte conservation, only trailing bytes reach the application, both sides eventually complete. Code level: real x real and real x legacy peer under whole/boundary/random/1-byte fragmentation with trailing data.",
          "TLC; harness logger", "5 C05"),
  "C11": (EX, "Trace_Handshake digest rules in TLA+ (offset functions, role->key table, signature vs echo) evaluated by TLC over facts about an uninterpreted HMAC-SHA256 supplied by an independent harness implementation; all 728 received offsets x 2 schemes x 2 roles enumerated, own offsets through the deterministic fill hook",
          "Exploration level, exhaustive over the received-offset space; own offsets are sampled (count of distinct positions seen is in the evidence).",
          "harness HMAC-SHA256 (FIPS 180-4/RFC 2104, self-checked against RFC 4231); fill hook; TLC", "5 C11"),
- "C20": (MC, "Apalache: clock laws for ALL (a,d) in u32 x u32 on a transcription of time.rs (ClockFlat) and correctness of the limb arithmetic U32 for Base = 65536 (U32Apa, with a refuted negative control); TLC: limb refinement exhaustively for Base = 16 (MC_Clock); Trace_Clock recomputes every operator result of the real RtmpTimestamp on boundary and random pairs",
+ "C20": (MC, "Apalache: clock laws for ALL (a,d) in u32 x u32 on a transcription of time.rs (ClockFlat); TLAPS: the same laws deductively (ClockFlatProof, 211 obligations) and correctness of the limb arithmetic U32 for Base = 65536 (U32Apa, with a refuted negative control); TLC: limb refinement exhaustively for Base = 16 (MC_Clock); Trace_Clock recomputes every operator result of the real RtmpTimestamp on boundary and random pairs",
          "Symbolic proof over the full 2^64 input space for the transcription; the transcription is bound to the code by trace validation on the boundary product (distances 2^31-2 .. 2^31+2, wraps) through all operators incl. u32 on either side.",
-         "ClockFlat transcription; Apalache/Z3; TLC", "5 C20"),
+         "ClockFlat transcription; Apalache/Z3; tlapm (SMT back end); TLC", "5 C20"),
  "C03": (EX, "Trace_Resource: call/return alphabet without panic/death/timeout actions + allocation/time envelope as invariants, over a state x malformed-class product executed in supervised child processes",
          "Exploration: the structured part enumerates (session state) x (hostile message class) x (fragmentation); byte mutation of valid streams is seeded sampling. The decisive observations are measurements.",
          "child-process supervisor, counting allocator, overflow-checked build; TLC", "5 C03"),
